@@ -278,6 +278,22 @@ impl Prop for P {
                 res.push(fmt_kvs(&got));
             }
         }
+        // the same content STREAMED to short-writing / interrupting / block-cutting writers: a search with the
+        // automaton that accepts everything (and no bounds) must enumerate the same entries on those files
+        if x == "ok" && ops.len() <= 300 {
+            let answer = |g: &Fst<Vec<u8>>| -> String {
+                let mut st = g.search(fst::automaton::AlwaysMatch).into_stream();
+                let mut got = vec![];
+                while let Some((k, v)) = st.next() {
+                    got.push(format!("{}:{}", hex(k), v.value()));
+                }
+                got.join(",")
+            };
+            let expected = answer(&f);
+            if let Err(e) = crate::wrap::streamed_files_answer(0, &ops, &bytes, &expected, &answer) {
+                x = e;
+            }
+        }
         xcount_add("search_with_state_map_set", nws);
         xcount_add("search_map_set", nws + nplain);
         let s = res.join("/");
